@@ -1271,6 +1271,12 @@ done:
        *       Termination even though we are technically returning binary data.
        */
       *bin     = (unsigned char *)ares_buf_finish_str(binbuf, &mylen);
+      if (*bin == NULL) {
+        /* zero-length string: finish_str() had to allocate and failed; the
+         * buffer is still ours */
+        ares_buf_destroy(binbuf);
+        return ARES_ENOMEM;
+      }
       *bin_len = mylen;
     } else {
       /* Caller only wanted to skip the string */
